@@ -1,0 +1,201 @@
+//go:build verif
+
+// Contracts for the deductive verifier in /verif (govc). Comment-only: this file adds no code.
+package importer
+
+// ---- C11: the Go-side importers (OpenAPI 2 through the legacy OpenAPI 3 extraction, XSD) carry every schema,
+// property, parameter and operation of the foreign document into the intermediate type / endpoint lists, and the
+// Sysl writer emits every entry of those lists.
+
+//@ spec inlist(s []string, x string) bool = exists(i, 0, len(s), s[i] == x)
+
+// All component schemas become types (under their Sysl-safe names) and every path goes through buildEndpoint.
+//@ func (*OpenAPI3Importer).convertSpec
+//@   maypanic
+//@   assert @call:importer.(*OpenAPI3Importer).loadTypeSchema [type-named-after-its-schema] arg2 == ref.Value
+//@   assert @call:importer.(*OpenAPI3Importer).buildEndpoint [endpoint-from-its-own-path-item] arg1 == path && arg2 == ep
+//@   ghostclear @iter:1 typed
+//@   ghostset @call:importer.(*TypeList).Add typed
+//@   loop 1 step [every-schema-becomes-a-type] found || ghost("typed")
+//@   ghostclear @iter:3 built
+//@   ghostset @call:importer.(*OpenAPI3Importer).buildEndpoint built
+//@   loop 3 step [every-path-is-built] ghost("built")
+//@   ghostclear @iter:4 grouped
+//@   ghostset @mapupdate:map[string][]importer.Endpoint grouped
+//@   loop 4 step [every-method-group-is-kept] ghost("grouped")
+//@   assert @mapupdate:map[string][]importer.Endpoint [grouped-under-its-own-method] mapkey == mep.Method || mapkey == k
+
+// One object schema: every entry of `properties` becomes exactly one field, appended under the property's own name,
+// and the field is optional exactly when the name is not in the schema's `required` list.
+//@ func (*OpenAPI3Importer).loadTypeSchema
+//@   maypanic
+//@   assert @setfield:F.importer.Field.Optional [optional-iff-not-required] stored == !inlist(schema.Required, fname)
+//@   assert @call:importer.(*OpenAPI3Importer).buildField [field-built-from-its-own-property] (arg1 == fname && arg2 == prop) || (arg2 == subSchema)
+//@   assert @setfield:F.importer.StandardType.Properties [fields-are-only-added] len(stored) == len(target.Properties) + 1 || stored == subObj.Properties
+//@   ghostclear @iter:3 propset
+//@   ghostset @setfield:F.importer.StandardType.Properties propset
+//@   loop 3 step [every-property-becomes-a-field] ghost("propset")
+//@   loop 0 step [every-alternative-becomes-an-option] len(fields) == hdr(len(fields)) + 1
+
+// A field carries the name it was asked for.
+//@ func (*OpenAPI3Importer).buildField
+//@   maypanic
+//@   ensures [named-as-asked] result1 == nil ==> result0.Name == name
+
+// Parameters: each becomes one Param built from its own schema, at its own location, optional iff not required.
+//@ func (*OpenAPI3Importer).buildParams
+//@   maypanic
+//@   assert @setfield:F.importer.Field.Optional [optional-iff-not-required] stored == !item.Value.Required
+//@   assert @setfield:F.importer.Param.In [located-as-declared] stored == item.Value.In
+//@   assert @call:importer.(*OpenAPI3Importer).buildField [field-from-the-parameter-schema] arg2 == item.Value.Schema && (arg1 == item.Value.Name || item.Value.In == "query")
+//@   ghostclear @iter:0 added
+//@   ghostset @call:importer.(*Parameters).Add added
+//@   loop 0 step [every-parameter-is-added] ghost("added")
+
+// Operations: every non-nil operation of the path item yields exactly one endpoint group under its own method.
+//@ func (*OpenAPI3Importer).buildEndpoint
+//@   maypanic
+//@   assert @setfield:F.importer.MethodEndpoints.Method [grouped-under-its-own-method] stored == method
+//@   assert @call:importer.(*OpenAPI3Importer).buildParams [parameters-of-this-operation] arg1 == item.Parameters || arg1 == op.Parameters
+//@   assert @call:importer.(*OpenAPI3Importer).buildRequests [request-body-of-this-operation] arg1 == op.RequestBody
+//@   assert @call:importer.(*OpenAPI3Importer).buildResponses [response-of-this-operation] arg1 == statusCode && arg2 == resp && arg3 == method && arg5 == op
+//@   loop 0 step [every-operation-becomes-an-endpoint] (op != nil ==> len(res) == hdr(len(res)) + 1) && (op == nil ==> len(res) == hdr(len(res)))
+//@   ghostclear @iter:1 responded
+//@   ghostset @call:importer.(*OpenAPI3Importer).buildResponses responded
+//@   loop 1 step [every-response-is-built] ghost("responded")
+
+// Request bodies: every media type of the body is grouped under its type name and then becomes one body parameter.
+//@ func (*OpenAPI3Importer).buildRequests
+//@   maypanic
+//@   ghostclear @iter:0 grouped
+//@   ghostset @mapupdate:map[string]*openapi3.MediaType grouped
+//@   loop 0 step [every-media-type-is-grouped] ghost("grouped")
+//@   assert @mapupdate:map[string]*openapi3.MediaType [grouped-under-its-own-media-type] mapkey == mediaType && stored == obj
+//@   assert @call:importer.(*OpenAPI3Importer).fieldForMediaType [field-of-this-media-type] arg1 == mediaType && arg2 == obj
+//@   ghostclear @iter:2 added
+//@   ghostset @call:importer.(*Parameters).Add added
+//@   loop 2 step [every-media-type-becomes-a-body-parameter] ghost("added")
+
+// Responses: every media type and every header of the response becomes a field; a successful call records exactly
+// one response on the endpoint.
+//@ func (*OpenAPI3Importer).buildResponses
+//@   maypanic
+//@   ghostclear @iter:0 grouped
+//@   ghostset @mapupdate:map[string]*openapi3.MediaType grouped
+//@   loop 0 step [every-media-type-is-grouped] ghost("grouped")
+//@   assert @mapupdate:map[string]*openapi3.MediaType [grouped-under-its-own-media-type] mapkey == mediaType && stored == obj
+//@   assert @call:importer.(*OpenAPI3Importer).fieldForMediaType [field-of-this-media-type] arg1 == mediaType && arg2 == obj
+//@   assert @setfield:F.importer.StandardType.Properties [fields-are-only-added] len(stored) == len(target.Properties) + 1 || len(stored) == 0
+//@   ghostclear @iter:2 fielded
+//@   ghostclear @iter:3 fielded
+//@   ghostset @setfield:F.importer.StandardType.Properties fielded
+//@   loop 2 step [every-media-type-becomes-a-field] ghost("fielded")
+//@   loop 3 step [every-header-becomes-a-field] ghost("fielded")
+//@   assert @setfield:F.importer.Endpoint.Responses [one-response-recorded] len(stored) == len(target.Responses) + 1
+//@   ghostset @setfield:F.importer.Endpoint.Responses recorded
+//@   ensures [success-records-the-response] result == nil ==> ghost("recorded")
+
+// Parameter sets: a parameter is recorded under its own name.
+//@ func (*Parameters).Add
+//@   requires p != nil
+//@   assert @mapupdate:map[string]importer.Param [recorded-under-its-own-name] mapkey == param.Name
+//@   ghostset @mapupdate:map[string]importer.Param recorded
+//@   ensures [always-recorded] ghost("recorded")
+
+//@ func (*TypeList).AddAndRet
+//@   ensures [returns-the-item] result == item
+
+// Field lists: one field per distinct name survives, or the duplicate is reported.
+//@ func (FieldList).SortWithoutDupl
+//@   maypanic
+//@   assert @mapupdate:map[string]importer.Field [keyed-by-its-own-name] mapkey == p.Name
+//@   ghostclear @iter:0 kept
+//@   ghostset @mapupdate:map[string]importer.Field kept
+//@   loop 0 step [every-field-is-recorded] ghost("kept")
+//@   ghostclear @iter:1 listed
+//@   ghostset @call:builtin:append listed
+//@   loop 1 step [every-recorded-field-is-listed] ghost("listed")
+
+// ---- type classification used by the writer
+//@ func isBuiltInType
+//@   pure
+//@   ensures [built-in-kinds] result == (tagof(item) == typeid("*SyslBuiltIn") || tagof(item) == typeid("*ImportedBuiltInAlias"))
+//@ func isUnionType
+//@   pure
+//@   ensures [union-kind] result == (tagof(item) == typeid("*Union"))
+//@ func isExternalAlias
+//@   pure
+//@   ensures [alias-kinds] result == (tagof(item) == typeid("*ExternalAlias") || tagof(item) == typeid("*Array") || tagof(item) == typeid("*Enum") || tagof(item) == typeid("*Alias"))
+
+// ---- the Sysl writer emits every entry it is given
+
+// Every endpoint of every method group is written, then the definitions.
+//@ func (*writer).Write
+//@   maypanic
+//@   ghostclear @iter:1 written
+//@   ghostset @call:importer.(*writer).writeEndpoint written
+//@   loop 1 step [every-endpoint-is-written] ghost("written")
+//@   ghostset @call:importer.(*writer).writeDefinitions defs
+//@   ensures [definitions-follow] result == nil ==> ghost("defs")
+//@   assert @call:importer.(*writer).writeDefinitions [all-types-handed-on] arg1.types == types.types
+
+// Every type that is not a built-in is written: unions, enums and structured types in place, the other aliases
+// after them.
+//@ func (*writer).writeDefinitions
+//@   maypanic
+//@   ghostclear @iter:0 written
+//@   ghostclear @iter:0 deferred
+//@   ghostset @call:importer.(*writer).writeUnion written
+//@   ghostset @call:importer.(*writer).writeExternalAlias written
+//@   ghostset @call:importer.(*writer).writeDefinition written
+//@   ghostset @call:builtin:append deferred
+//@   loop 0 step [only-built-ins-are-skipped] tagof(t) == typeid("*SyslBuiltIn") || tagof(t) == typeid("*ImportedBuiltInAlias") || ghost("written") || ghost("deferred")
+//@   loop 0 step [deferred-aliases-are-kept] ghost("deferred") ==> len(others) == hdr(len(others)) + 1
+//@   assert @call:importer.(*writer).writeUnion [writes-this-type] arg1 == t
+//@   assert @call:importer.(*writer).writeExternalAlias [writes-this-type] arg1 == t
+//@   ghostclear @iter:1 aliaswritten
+//@   ghostset @call:importer.(*writer).writeExternalAlias aliaswritten
+//@   loop 1 step [every-deferred-alias-is-written] ghost("aliaswritten")
+
+// Every property of a structured type gets its line.
+//@ func (*writer).writeDefinition
+//@   maypanic
+//@   ghostclear @iter:0 line
+//@   ghostset @call:fmt.Sprintf line
+//@   loop 0 step [every-property-gets-a-line] ghost("line")
+//@   assert @call:importer.getSyslSafeName [named-after-the-property] arg0 == prop.Name
+
+//@ func (*writer).writeUnion
+//@   maypanic
+//@   ghostclear @iter:0 line
+//@   ghostset @call:importer.(*writer).writeLines line
+//@   loop 0 step [every-option-gets-a-line] ghost("line")
+
+// ---- XSD
+
+// A complex type: every element (own and inherited) and every attribute becomes exactly one field, built from its own
+// declaration, attributes marked as such.
+//@ func makeComplexType
+//@   maypanic
+//@   ghostset @iter:1 inattrs
+//@   assert @call:importer.makeComplexType$1 [child-from-its-own-declaration] arg1 == child.Type && arg2 == ghost("inattrs") && arg3 == child.Optional && arg4 == child.Plural
+//@   assert @setfield:F.importer.StandardType.Properties [fields-are-only-added] len(stored) == len(target.Properties) + 1
+//@   ghostclear @iter:0 fielded
+//@   ghostclear @iter:1 fielded
+//@   ghostset @setfield:F.importer.StandardType.Properties fielded
+//@   loop 0 step [every-element-becomes-a-field] ghost("fielded")
+//@   loop 1 step [every-attribute-becomes-a-field] ghost("fielded")
+
+//@ func makeComplexType$1
+//@   maypanic
+//@   ensures [optional-as-declared] result.Optional == optional
+//@   ensures [plural-is-a-sequence] plural ==> tagof(result.Type) == typeid("*Array")
+//@   ensures [attribute-is-marked] isAttr ==> len(result.Attrs) == 1 && result.Attrs[0] == "~xml_attribute"
+
+// Every schema of the document contributes its types.
+//@ func (*XSDImporter).Load
+//@   maypanic
+//@   ghostclear @iter:0 added
+//@   ghostset @call:importer.(*TypeList).Add added
+//@   loop 0 step [every-schema-contributes] ghost("added")
+//@   assert @call:importer.(*writer).Write [all-types-written] arg2.types == i.types.types
